@@ -68,6 +68,30 @@ def check(pid: str, tier: str, seed: int):
                     mo.add_association(o)
                 PIO.add_model_attackers(impl, rng, mo, lgo)
                 pairs.append((f'ops{oi}', Lo, lgo, lcfo, mo))
+            # a second language of the same process with the same asset types, step and variable names, in which the
+            # variable and two steps are defined differently: nothing of the first language may show in its graphs
+            Lt = copy.deepcopy(Lo)
+            LGF = LG
+            for a in Lt['assets']:
+                if a['name'] == 'Aa':
+                    a['variables'] = [{'name': 'vv', 'stepExpression': LGF.CO(LGF.F('qb'), LGF.F('pb'))}]
+                    for st in a['attackSteps']:
+                        if st['name'] == 'sfield':
+                            st['reaches'] = {'overrides': True, 'stepExpressions': [LGF.CO(LGF.F('qb'), LGF.S('t'))]}
+                        if st['name'] == 'ex':
+                            st['requires'] = {'overrides': True, 'stepExpressions': [LGF.U(LGF.F('pb'), LGF.F('qb'))]}
+            lgt, lcft = MG.make_lang(impl, Lt)
+            mt = Model('twin', lcft)
+            objs = []
+            for k, t in enumerate(['Aa', 'Bb', 'Cc']):
+                objs.append(getattr(lcft.ns, t)(name=f'{t.lower()}{k}'))
+                mt.add_asset(objs[-1])
+            for cls, l, r in [('Pp', 0, 1), ('Qq', 1, 2), ('Qq', 0, 2), ('Pp', 2, 0)]:
+                o = getattr(lcft.ns, cls)()
+                lf, rf = ('pa', 'pb') if cls == 'Pp' else ('qa', 'qb')
+                setattr(o, lf, [objs[l]]); setattr(o, rf, [objs[r]])
+                mt.add_association(o)
+            pairs.append(('twin', Lt, lgt, lcft, mt))
         except Exception:
             pass
         # inheritance chains of depth 3 with a step absent / plain / '->' / '+>' at every level (in-process checks only)
